@@ -240,6 +240,9 @@ fn run(ctx: &Ctx) {
     if !ctx.run_prop("shuffled_lines", RULE, ctx.cases(600, 80_000), strat_shuffled, check) {
         return;
     }
+    if !crate::props::proc_checks::c05_front(ctx) {
+        return;
+    }
     if ctx.tier == Tier::Thorough {
         ctx.run_fuzz("libfuzzer_ledger", "ledger", (30_000.0 * ctx.scale) as u64, 1200, "coverage-guided libFuzzer campaign: bytes decoded into a ledger recipe (structure-aware), the proptest oracles of C01/C02/C03/C05 inside the target; evaluations = executions, distinct_nontrivial = distinct corpus entries (inputs that reached new coverage)");
     }
@@ -250,6 +253,6 @@ fn replay(name: &str, case: &Value) -> Option<Verdict> {
         "plain" | "terminating_splits" | "residue_splits" | "shuffled_lines" => {
             Some(replay_case::<Case, _>(case, check).unwrap_or_else(Verdict::Fail))
         }
-        _ => None,
+        other => crate::props::proc_checks::replay(other, case),
     }
 }
